@@ -178,6 +178,53 @@ func runC06(c *Ctx) {
 		}
 		c.Case(gen, in, obs, before != Render(L(obsProfile(p)...)), "op:applyfocus", fmt.Sprintf("nopts:%d", nopts))
 	}
+	// the same options through generateRawReport, with and without relative_percentages: the filters
+	// must be applied exactly once either way
+	rawReport := func(gen string, p *profile.Profile, opts map[string]string, relative bool) {
+		var rxs []string
+		var cfg []Term
+		for _, n := range optNames {
+			v := opts[n]
+			cfg = append(cfg, S(v))
+			if v == "" {
+				continue
+			}
+			rxs = append(rxs, v)
+			if n == "tagfocus" || n == "tagignore" {
+				if i := strings.Index(v, "="); i >= 0 {
+					v = v[i+1:]
+				}
+				rxs = append(rxs, v)
+				rxs = append(rxs, strings.Split(v, ",")...)
+			}
+		}
+		units, _ := p.NumLabelUnits()
+		var us []Term
+		var uk []string
+		for k := range units {
+			uk = append(uk, k)
+		}
+		sort.Strings(uk)
+		for _, k := range uk {
+			us = append(us, L(S(k), S(units[k])))
+		}
+		in := L(S("rawreport"), DumpProfile(p), L(cfg...), L(us...), matchTable(c06Universe(p), rxs), Bool(relative))
+		before := Render(L(obsProfile(p)...))
+		ui := &c06UI{}
+		obs := guard(func() Term {
+			st := ""
+			if err := driver.VerifC06RawReport(p, opts, relative, ui); err != nil {
+				st = "?"
+				for _, n := range optNames {
+					if strings.HasPrefix(err.Error(), "parsing "+n+" regexp") {
+						st = n
+					}
+				}
+			}
+			return L(append([]Term{S(st)}, obsProfile(p)...)...)
+		})
+		c.Case(gen, in, obs, before != Render(L(obsProfile(p)...)), "op:rawreport", fmt.Sprintf("relative:%v", relative))
+	}
 
 	// ---- witnesses of the known findings, always generated
 	sp := func(s string) *string { return &s }
@@ -277,6 +324,20 @@ func runC06(c *Ctx) {
 			}
 		}
 		applyFocus("applyfocus-rand", genStacks(r, kn), opts)
+		if i%3 == 0 {
+			rawReport("rawreport-rand", genStacks(r, kn), opts, i%2 == 0)
+		}
+	}
+	// overlapping combinations: what one filter removes another one looks for
+	for i := 0; i < c.Budget(60, 1500); i++ {
+		x, y := PickS(r, c06Rx), PickS(r, c06Rx)
+		combos := []map[string]string{
+			{"focus": x, "hide": x}, {"focus": x, "show_from": y}, {"tagfocus": PickS(r, c06KeyRx), "taghide": "k|key|a|b"},
+			{"focus": x, "show": y}, {"ignore": x, "hide": y},
+		}
+		opts := combos[i%len(combos)]
+		rawReport("rawreport-overlap", genStacks(r, kn), opts, true)
+		rawReport("rawreport-overlap", genStacks(r, kn), opts, false)
 	}
 }
 
